@@ -330,10 +330,12 @@ let agent_suite () =
                emit (Printf.sprintf "S %d 0 C08 lt-integrity-key" i)
              end;
              if not (mon_C13_ltcred cc st.ma_lt mo o) then emit (Printf.sprintf "S %d 0 C13 lt-credential-attributes" i);
+             (* C07: a response without acceptable integrity fails the request (reliable) / marks it (unreliable) *)
+             if not (mon_C07_reject cc st.ma_core st.ma_st mo o) then emit (Printf.sprintf "S %d 0 C07 st-bad-response-not-rejected" i);
              (* C08: a plain 401 / 438 challenge for an outstanding request is answered by the retry notification *)
              if not (mon_C08_retry cc st.ma_core st.ma_lt mo o) then emit (Printf.sprintf "S %d 0 C08 lt-challenge-not-retried" i);
              (* C06: before any response time has been measured the timeout in effect is the configured RTO *)
-             if not (mon_C06_initial c cc st.ma_rtt mo o) then emit (Printf.sprintf "S %d 0 C06 initial-rto" i);
+             if not (mon_C06_initial c cc st.ma_rtt mo o) then emit (Printf.sprintf "S %d 0 C06 initial-transmission" i);
              let (s', vs) = monitor_step c cc st mo o in
              ms := Some s'; prev := Some key;
              if List.mem "pwleak=1" (split_sp (if n > 2 then String.sub line 2 (n - 2) else "")) then
